@@ -170,7 +170,8 @@ pub(crate) fn dlf_expressible(a: &AF) -> bool {
 /// can the abstract filter be written as one entry of a dlt-convert APID/CTID list? (positive, enabled, two literal ids of at
 /// most four ASCII bytes without the padding character, nothing else)
 pub(crate) fn list_expressible(a: &AF) -> bool {
-    let id_ok = |s: &Option<String>, re: &Option<bool>| matches!((s, re), (Some(x), Some(false)) if !x.is_empty() && x.len() <= 4 && x.is_ascii() && !x.contains('-'));
+    // an id that is not given is written as `----`
+    let id_ok = |s: &Option<String>, re: &Option<bool>| s.is_none() || matches!((s, re), (Some(x), Some(false)) if !x.is_empty() && x.len() <= 4 && x.is_ascii() && !x.contains('-'));
     a.t == 0 && a.en && !a.not && a.ecu.is_none() && id_ok(&a.apid, &a.apidre) && id_ok(&a.ctid, &a.ctidre) && a.vmm.is_none() && a.mstp.is_none()
         && a.pl.is_none() && a.plre.is_none() && a.lmin.is_none() && a.lmax.is_none() && a.lcs.is_none()
 }
@@ -430,6 +431,17 @@ fn gen(rng: &mut Rng, tier: u32) -> String {
         for a in afs.iter_mut() {
             if rng.chance(2) {
                 *a = AF { t: 0, en: true, apid: Some(rng.pick(&["APID", "AP1", "A", "SYS"]).to_string()), apidre: Some(false), ctid: Some(rng.pick(&["CTID", "CT", "C1", "MAIN"]).to_string()), ctidre: Some(false), ..Default::default() };
+                match rng.below(6) {
+                    0 => {
+                        a.apid = None;
+                        a.apidre = None;
+                    }
+                    1 => {
+                        a.ctid = None;
+                        a.ctidre = None;
+                    }
+                    _ => {}
+                }
             }
         }
     }
